@@ -11,6 +11,7 @@ import (
 	"go/constant"
 	"go/token"
 	"go/types"
+	"strings"
 
 	"golang.org/x/tools/go/ssa"
 )
@@ -681,6 +682,10 @@ func (w *World) rowLookupOf(fn *ssa.Function) *rowLookup {
 		return lk
 	}
 	rowLookupMemo[fn] = nil
+	if lk := w.rowLookupByIndexSearch(fn); lk != nil {
+		rowLookupMemo[fn] = lk
+		return lk
+	}
 	res := fn.Signature.Results()
 	okRes := -1
 	for i := 0; i < res.Len(); i++ {
@@ -796,6 +801,237 @@ func (w *World) rowLookupOf(fn *ssa.Function) *rowLookup {
 	lk := &rowLookup{fn: fn, g: tableOfElem(ia), keyField: keyField, param: param, rowRes: rowRes, okRes: okRes}
 	rowLookupMemo[fn] = lk
 	return lk
+}
+
+// keyPredicateOf: pred is a function value `func(row) bool { return row.key == k }` made inside fn, where k is a parameter of fn
+// (captured by the closure, never written): the member compared and the index of the parameter.
+func (w *World) keyPredicateOf(fn *ssa.Function, pred ssa.Value) (keyField, param int, ok bool) {
+	mc, isMC := stripIdentity(pred).(*ssa.MakeClosure)
+	if !isMC {
+		return 0, 0, false
+	}
+	g, isFn := mc.Fn.(*ssa.Function)
+	if !isFn || g.Blocks == nil || len(g.Params) != 1 || g.Signature.Results().Len() != 1 {
+		return 0, 0, false
+	}
+	// the one result: member of the parameter == captured key
+	var rets []*ssa.Return
+	forEachInstr(g, func(_ *ssa.BasicBlock, ins ssa.Instruction) {
+		if r, isRet := ins.(*ssa.Return); isRet {
+			rets = append(rets, r)
+		}
+	})
+	if len(rets) != 1 {
+		return 0, 0, false
+	}
+	bo, isBo := stripIdentity(rets[0].Results[0]).(*ssa.BinOp)
+	if !isBo || bo.Op != token.EQL {
+		return 0, 0, false
+	}
+	// member `f` of the row the predicate is handed (by value, through its local copy, or by address)
+	memberOfParam := func(v ssa.Value) (int, bool) {
+		switch x := stripIdentity(v).(type) {
+		case *ssa.Field:
+			if stripIdentity(x.X) == ssa.Value(g.Params[0]) {
+				return x.Field, true
+			}
+		case *ssa.UnOp:
+			fa, isFA := x.X.(*ssa.FieldAddr)
+			if x.Op != token.MUL || !isFA {
+				return 0, false
+			}
+			base := stripIdentity(fa.X)
+			if al, isAl := base.(*ssa.Alloc); isAl {
+				if val := recordAssignedOnce(al); val != nil {
+					base = stripIdentity(val)
+				}
+			}
+			if base == ssa.Value(g.Params[0]) {
+				return fa.Field, true
+			}
+		}
+		return 0, false
+	}
+	// a parameter of fn seen from inside the closure
+	outerParam := func(v ssa.Value) (int, bool) {
+		ld, isLd := stripIdentity(v).(*ssa.UnOp)
+		if !isLd || ld.Op != token.MUL {
+			return 0, false
+		}
+		fv, isFV := ld.X.(*ssa.FreeVar)
+		if !isFV || fv.Referrers() == nil {
+			return 0, false
+		}
+		for _, ref := range *fv.Referrers() {
+			switch ref.(type) {
+			case *ssa.UnOp, *ssa.DebugRef:
+			default:
+				return 0, false
+			}
+		}
+		for i, q := range g.FreeVars {
+			if q != fv || i >= len(mc.Bindings) {
+				continue
+			}
+			cell, isAl := mc.Bindings[i].(*ssa.Alloc)
+			if !isAl || cell.Referrers() == nil {
+				return 0, false
+			}
+			var only ssa.Value
+			n := 0
+			for _, ref := range *cell.Referrers() {
+				if st, isSt := ref.(*ssa.Store); isSt && st.Addr == ssa.Value(cell) {
+					n++
+					only = st.Val
+				}
+			}
+			p, isP := only.(*ssa.Parameter)
+			if n != 1 || !isP || p.Parent() != fn {
+				return 0, false
+			}
+			for j, fp := range fn.Params {
+				if fp == p {
+					return j, true
+				}
+			}
+		}
+		return 0, false
+	}
+	for _, pair := range [][2]ssa.Value{{bo.X, bo.Y}, {bo.Y, bo.X}} {
+		f, isM := memberOfParam(pair[0])
+		j, isK := outerParam(pair[1])
+		if isM && isK {
+			return f, j, true
+		}
+	}
+	return 0, 0, false
+}
+
+// rowLookupByIndexSearch: the row lookup written with the library's search: `i := slices.IndexFunc(table, func(row) bool { return
+// row.key == k })`, then (the row at i, true) where i is a position and (zero, false) where it is not.
+func (w *World) rowLookupByIndexSearch(fn *ssa.Function) *rowLookup {
+	res := fn.Signature.Results()
+	okRes := -1
+	for i := 0; i < res.Len(); i++ {
+		if types.Identical(res.At(i).Type().Underlying(), types.Typ[types.Bool]) {
+			if okRes >= 0 {
+				return nil
+			}
+			okRes = i
+		}
+	}
+	if okRes < 0 || res.Len() > 2 {
+		return nil
+	}
+	var search *ssa.Call
+	n := 0
+	forEachInstr(fn, func(_ *ssa.BasicBlock, ins ssa.Instruction) {
+		c, isCall := ins.(*ssa.Call)
+		if !isCall || len(c.Call.Args) != 2 {
+			return
+		}
+		if g := c.Call.StaticCallee(); g != nil && strings.HasPrefix(g.String(), "slices.IndexFunc") {
+			search = c
+			n++
+		}
+	})
+	if n != 1 || search.Referrers() == nil {
+		return nil
+	}
+	var g *ssa.Global
+	if ld, isLd := stripIdentity(search.Call.Args[0]).(*ssa.UnOp); isLd && ld.Op == token.MUL {
+		g, _ = ld.X.(*ssa.Global)
+	}
+	if g == nil || w.tableRows(g) == nil {
+		return nil
+	}
+	keyField, param, ok := w.keyPredicateOf(fn, search.Call.Args[1])
+	if !ok {
+		return nil
+	}
+	// the one test "i is a position": i >= 0, i != -1, ... and its negations
+	var iff *ssa.If
+	hit := -1
+	for _, ref := range *search.Referrers() {
+		switch x := ref.(type) {
+		case *ssa.BinOp:
+			k, isK := x.Y.(*ssa.Const)
+			if x.X != ssa.Value(search) || !isK || k.Value == nil || k.Value.Kind() != constant.Int || x.Referrers() == nil {
+				return nil
+			}
+			h := -1
+			switch kv := k.Int64(); {
+			case x.Op == token.GEQ && kv == 0, x.Op == token.GTR && kv == -1, x.Op == token.NEQ && kv == -1:
+				h = 0
+			case x.Op == token.LSS && kv == 0, x.Op == token.LEQ && kv == -1, x.Op == token.EQL && kv == -1:
+				h = 1
+			default:
+				return nil
+			}
+			for _, r2 := range *x.Referrers() {
+				switch y := r2.(type) {
+				case *ssa.If:
+					if iff != nil {
+						return nil
+					}
+					iff, hit = y, h
+				case *ssa.DebugRef:
+				default:
+					return nil
+				}
+			}
+		case *ssa.IndexAddr, *ssa.DebugRef:
+		default:
+			return nil
+		}
+	}
+	if iff == nil {
+		return nil
+	}
+	rowRes := -1
+	if res.Len() == 2 {
+		rowRes = 1 - okRes
+	}
+	nHit, nMiss := 0, 0
+	for _, b := range fn.Blocks {
+		ret, isRet := b.Instrs[len(b.Instrs)-1].(*ssa.Return)
+		if !isRet {
+			continue
+		}
+		if len(ret.Results) != res.Len() {
+			return nil
+		}
+		k, isConst := ret.Results[okRes].(*ssa.Const)
+		if !isConst || k.Value == nil || k.Value.Kind() != constant.Bool {
+			return nil
+		}
+		if constant.BoolVal(k.Value) {
+			if !edgeDominates(iff.Block(), hit, b) {
+				return nil
+			}
+			if rowRes >= 0 {
+				a, f, isRow := w.rowElemOf(ret.Results[rowRes])
+				if !isRow || f >= 0 || a.Index != ssa.Value(search) || tableOfElem(a) != g {
+					return nil
+				}
+			}
+			nHit++
+		} else {
+			if edgeDominates(iff.Block(), hit, b) {
+				return nil
+			}
+			if rowRes >= 0 {
+				if _, isC := ret.Results[rowRes].(*ssa.Const); !isC {
+					return nil
+				}
+			}
+			nMiss++
+		}
+	}
+	if nHit != 1 || nMiss == 0 {
+		return nil
+	}
+	return &rowLookup{fn: fn, g: g, keyField: keyField, param: param, rowRes: rowRes, okRes: okRes}
 }
 
 // foundRow: what a call site of a row lookup holds.
@@ -1050,6 +1286,48 @@ func (w *World) listOfFoundRow(v ssa.Value) (foundRow, bool) {
 		}
 	}
 	return fr, false
+}
+
+// foundRowWithList: v is the row (or its address) a keyed lookup in a keyedListTable has returned, and pred is a predicate about
+// that table's list member of the record it is handed (predicateList): the lookup's call site.
+func (w *World) foundRowWithList(v ssa.Value, pred *ssa.Function) (foundRow, bool) {
+	var fr foundRow
+	_, field, ok := predicateList(pred)
+	if !ok || field < 0 {
+		return fr, false
+	}
+	rec := stripIdentity(v)
+	if ld, isLd := rec.(*ssa.UnOp); isLd && ld.Op == token.MUL {
+		if al, isAl := ld.X.(*ssa.Alloc); isAl {
+			if val := recordAssignedOnce(al); val != nil {
+				rec = stripIdentity(val)
+			}
+		}
+	}
+	ex, isEx := rec.(*ssa.Extract)
+	if !isEx {
+		return fr, false
+	}
+	call, isCall := ex.Tuple.(*ssa.Call)
+	if !isCall {
+		return fr, false
+	}
+	lk := w.rowLookupOf(call.Call.StaticCallee())
+	if lk == nil || lk.rowRes != ex.Index {
+		return fr, false
+	}
+	for _, t := range w.keyedListTables() {
+		if t.g == lk.g && t.listField == field {
+			return foundRow{call, lk}, true
+		}
+	}
+	return fr, false
+}
+
+// isListOfRow: v reads the list member of the row that lookup has returned.
+func (w *World) isListOfRow(v ssa.Value, row foundRow) bool {
+	fr, ok := w.listOfFoundRow(v)
+	return ok && fr.call == row.call
 }
 
 // sameFoundRowList: a and b read the list member of the row the same lookup has returned.
